@@ -80,6 +80,8 @@ def one_sequence(rng, out):
             new = float(10.0 ** rng.uniform(-3, 3))
         r = env.get_reward(np.zeros(1), new)
         c["reward_calls"] = c.get("reward_calls", 0) + 1
+        direct = mode == "adversarial" and t % 3 == 2   # the agent's rule holds for any reward it is handed, not only the environment's
+        r_env = r
         if new < ref_best:
             exp_r = (ref_best - new) / ref_best
             ref_best = new
@@ -87,10 +89,13 @@ def one_sequence(rng, out):
         else:
             exp_r = 0.0
         trace.append({"t": t, "action": int(a), "new_best": new, "reward": r})
-        if not (abs(r - exp_r) <= 1e-15 * max(1.0, abs(exp_r))):
+        if not (abs(r_env - exp_r) <= 1e-15 * max(1.0, abs(exp_r))):
             return bad(f"reward {r!r}, rule gives {exp_r!r} (prev best, new best = {trace[-1]})")
         if env._curr_best_loss != ref_best:
             return bad(f"environment reference best {env._curr_best_loss!r}, rule gives {ref_best!r}")
+        if direct:
+            r = float(rng.choice([-1.0, -0.25, 0.0, 1.5, float(rng.normal() * 3)]))
+            c["direct_rewards"] = c.get("direct_rewards", 0) + 1
         agent.learn(0, a, r, 0)
         twin.learn(0, a, r, 0)
         c["learn_steps"] = c.get("learn_steps", 0) + 1
